@@ -204,8 +204,9 @@ def check_expansion(ctx, rule="C19", only=None, default_tolerance_only=False):
         kind = rounding_kind(d_expr)
         arg = rounded_arg(d_expr)
         inner = arg.args[0] if isinstance(arg, ast.Call) and (dotted(arg.func) or "").split(".")[-1] == "log2" and arg.args else None
-        ok_d = kind in ("floor", "trunc") and isinstance(inner, ast.BinOp) and isinstance(inner.op, ast.Div) and A.norm(inner.right) == rest and isinstance(inner.left, ast.Name)
-        nmax_name = inner.left.id if ok_d else None
+        ok_d = kind in ("floor", "trunc") and isinstance(inner, ast.BinOp) and isinstance(inner.op, ast.Div) and A.norm(inner.right) == rest
+        nmax_expr = inner.left if ok_d else None
+        nmax_name = nmax_expr.id if isinstance(nmax_expr, ast.Name) else None
         ctx.check(R("B"), "get_angle_spec_from_float:exponent-is-floor-log2(n_max/remainder)", ok_d,
                   f"the exponent is `{src(d_expr)}`; it must be the floor of log2(n_max / remainder) so that remainder * 2^d <= n_max", repo.loc(m, defs[dvar][0]))
         nmax_val = None
@@ -213,6 +214,8 @@ def check_expansion(ctx, rule="C19", only=None, default_tolerance_only=False):
             for st in fn.body:
                 if isinstance(st, ast.Assign) and A.norm(st.targets[0]) == nmax_name:
                     nmax_val = ev.try_eval(st.value, m)
+        if nmax_val is None and nmax_expr is not None:  # an expression, or a module-level constant
+            nmax_val = ev.try_eval(nmax_expr, m)
         bits = ev.try_eval(ast.parse("IMMEDIATE_BITS", mode="eval").body, m)
         ctx.check(R("B"), "get_angle_spec_from_float:n_max=2^IMMEDIATE_BITS-1", isinstance(nmax_val, int) and isinstance(bits, int) and nmax_val == 2 ** bits - 1,
                   f"n_max evaluates to {nmax_val}; the numerator field holds 0..{2 ** bits - 1 if isinstance(bits, int) else '?'}", repo.loc(m, fn), sample={"n_max": nmax_val, "IMMEDIATE_BITS": bits})
@@ -223,8 +226,11 @@ def check_expansion(ctx, rule="C19", only=None, default_tolerance_only=False):
                 if c is not None:
                     # raises when n > n_max
                     try:
-                        hi = bool(G.peval(c, {nvar: (nmax_val or 255) + 1, nmax_name or "n_max": nmax_val or 255}))
-                        lo = bool(G.peval(c, {nvar: (nmax_val or 255), nmax_name or "n_max": nmax_val or 255}))
+                        cenv = {nmax_name or "n_max": nmax_val or 255, "IMMEDIATE_BITS": bits if isinstance(bits, int) else 8}
+                        if nmax_expr is not None:
+                            cenv[A.norm(nmax_expr)] = nmax_val or 255
+                        hi = bool(G.peval(c, dict(cenv, **{nvar: (nmax_val or 255) + 1})))
+                        lo = bool(G.peval(c, dict(cenv, **{nvar: (nmax_val or 255)})))
                         guarded = guarded or (hi and not lo)
                     except Unknown:
                         pass
@@ -266,15 +272,37 @@ def check_expansion(ctx, rule="C19", only=None, default_tolerance_only=False):
                     ctx.check(R("S"), "get_angle_spec_from_float:simplification-keeps-the-exponent-non-negative", nonneg,
                               f"the simplification loop `while {src(tt)}` can decrement the exponent below 0: for an angle within float rounding of a full turn the remainder is exactly 2.0, "
                               "the step (128, 6) simplifies to (1, -1), and a negative exponent cannot be encoded", repo.loc(m, w))
-                    # initialised from the step and written back to the same slot
-                    init = [st for st in f.body if isinstance(st, ast.Assign) and isinstance(st.targets[0], ast.Tuple) and [A.norm(x) for x in st.targets[0].elts] == [a, tb]]
-                    wb = [st for st in f.body if isinstance(st, ast.Assign) and isinstance(st.targets[0], ast.Subscript) and A.norm(st.value) == f"({a},{tb})"]
+                    # the working pair starts as the step of this iteration, and the simplified pair is delivered in the step's
+                    # own position: written back to the same slot of the iterated list, or appended to a new list in iteration order
                     tgt = f.target
-                    if isinstance(tgt, ast.Tuple) and len(tgt.elts) == 2 and isinstance(tgt.elts[1], ast.Tuple):
-                        idx, (sn, sd) = A.norm(tgt.elts[0]), [A.norm(x) for x in tgt.elts[1].elts]
-                        ok_s = ok_s and len(init) == 1 and A.norm(init[0].value) == f"({sn},{sd})" and len(wb) == 1 and A.norm(wb[0].targets[0].slice) == idx
-                    else:
-                        ok_s = False
+                    step = idx = None
+                    if isinstance(tgt, ast.Tuple) and len(tgt.elts) == 2 and isinstance(tgt.elts[1], ast.Tuple) and isinstance(f.iter, ast.Call) and dotted(f.iter.func) == "enumerate":
+                        idx, step = A.norm(tgt.elts[0]), [A.norm(x) for x in tgt.elts[1].elts]
+                    elif isinstance(tgt, ast.Tuple) and len(tgt.elts) == 2 and all(isinstance(x, ast.Name) for x in tgt.elts):
+                        step = [A.norm(x) for x in tgt.elts]
+                    inits = {}
+                    for st2 in f.body:
+                        if st2 is w or any(st2 is y for y in ast.walk(w)):
+                            break
+                        if isinstance(st2, ast.Assign) and isinstance(st2.targets[0], ast.Tuple) and isinstance(st2.value, ast.Tuple):
+                            inits.update({A.norm(t_): A.norm(v_) for t_, v_ in zip(st2.targets[0].elts, st2.value.elts)})
+                        elif isinstance(st2, ast.Assign) and isinstance(st2.targets[0], ast.Name):
+                            inits[st2.targets[0].id] = A.norm(st2.value)
+                    init_ok = step is not None and ((inits.get(a) == step[0] and inits.get(tb) == step[1]) or (a == step[0] and tb == step[1]))
+                    pair = f"({a},{tb})"
+                    fdefs = {k_: A.norm(v_) for st2 in f.body if isinstance(st2, ast.Assign) and isinstance(st2.targets[0], ast.Name) for k_, v_ in [(st2.targets[0].id, st2.value)]}
+                    delivered = False
+                    for st2 in f.body:
+                        if isinstance(st2, ast.Assign) and isinstance(st2.targets[0], ast.Subscript) and A.norm(st2.value) == pair:
+                            delivered = idx is not None and A.norm(st2.targets[0].slice) == idx and isinstance(f.iter, ast.Call) and A.norm(st2.targets[0].value) == A.norm(f.iter.args[0])
+                        if isinstance(st2, ast.Expr) and isinstance(st2.value, ast.Call) and isinstance(st2.value.func, ast.Attribute) and st2.value.func.attr == "append" and len(st2.value.args) == 1:
+                            arg = A.norm(st2.value.args[0])
+                            if arg == pair or fdefs.get(arg) == pair:
+                                out_list = A.norm(st2.value.func.value)
+                                fresh = any(isinstance(s3, ast.Assign) and A.norm(s3.targets[0]) == out_list and isinstance(s3.value, ast.List) and not s3.value.elts for s3 in post)
+                                returned = any(isinstance(r_.value, ast.Name) and r_.value.id == out_list for r_ in A.returns(fn))
+                                delivered = fresh and returned
+                    ok_s = ok_s and init_ok and delivered
         ctx.check(R("S"), "get_angle_spec_from_float:simplification-keeps-n/2^d", ok_s,
                   f"the simplification of a step must halve n and decrement d together while n is even and write the pair back to its own slot ({detail})", repo.loc(m, fn))
     if want("F"):
@@ -310,6 +338,8 @@ def check_filter(ctx, rule, fn, m, lp, tol, nmax_name, default_only=False):
     for st in fn.body:
         if isinstance(st, ast.Assign) and nmax_name and A.norm(st.targets[0]) == nmax_name:
             nmax = ev.try_eval(st.value, m) or 255
+    if nmax_name and not any(isinstance(st, ast.Assign) and A.norm(st.targets[0]) == nmax_name for st in fn.body):
+        nmax = ev.try_eval(ast.Name(id=nmax_name, ctx=ast.Load()), m) or 255
     for tl, label in ((default_tol, "the default tolerance"),) + (() if default_only else ((MIN_TOL, f"tolerance {MIN_TOL:g}"),)):
         if not isinstance(tl, (int, float)) or tl <= 0:
             ctx.error(rule, f"tolerance for {label} could not be evaluated")
